@@ -33,8 +33,17 @@ fn sub(n: usize) {
     let _ = LIVE.try_with(|l| l.set(l.get() - n as isize));
 }
 
+/// A single request above this size is refused (null), which makes the process abort
+/// deterministically — in the batch and when the supervisor re-runs the case alone — instead of
+/// depending on how much memory happens to be free. Nothing legitimate in the workloads comes
+/// near it (streams are at most a few hundred KiB).
+pub const SINGLE_REQUEST_LIMIT: usize = 1 << 30;
+
 unsafe impl GlobalAlloc for Counting {
     unsafe fn alloc(&self, layout: Layout) -> *mut u8 {
+        if layout.size() > SINGLE_REQUEST_LIMIT {
+            return std::ptr::null_mut();
+        }
         add(layout.size());
         unsafe { System.alloc(layout) }
     }
@@ -43,10 +52,16 @@ unsafe impl GlobalAlloc for Counting {
         unsafe { System.dealloc(ptr, layout) }
     }
     unsafe fn alloc_zeroed(&self, layout: Layout) -> *mut u8 {
+        if layout.size() > SINGLE_REQUEST_LIMIT {
+            return std::ptr::null_mut();
+        }
         add(layout.size());
         unsafe { System.alloc_zeroed(layout) }
     }
     unsafe fn realloc(&self, ptr: *mut u8, layout: Layout, new_size: usize) -> *mut u8 {
+        if new_size > SINGLE_REQUEST_LIMIT {
+            return std::ptr::null_mut();
+        }
         if new_size >= layout.size() {
             add(new_size - layout.size());
         } else {
